@@ -155,29 +155,83 @@ show_char!(show_char1, 1);
 show_char!(show_char2, 2);
 show_char!(show_char3, 3);
 
-/// Enter with a handler that (mode 0) writes nothing, (1) writes symbolic text,
-/// (2) changes the prompt: afterwards a fresh row shows the (new) prompt with the
-/// cursor behind it; the submitted line stays on its own row; output sits between.
-fn show_enter_body(valid: usize) {
+/// What Enter must send to the terminal: CR LF, then the handler's output with LF ->
+/// CR LF and one CR LF iff that output is non-empty and does not end with LF, then the
+/// (possibly new) prompt.  `out` is "" when the handler is not entered or writes nothing.
+fn enter_transcript(out: &str, prompt_now: usize) -> ([u8; TR], usize) {
+    let mut e = [0u8; TR];
+    e[0] = b'\r';
+    e[1] = b'\n';
+    let mut l = 2usize;
+    let ob = out.as_bytes();
+    let mut i = 0;
+    while i < ob.len() {
+        if ob[i] == b'\n' {
+            e[l] = b'\r';
+            l += 1;
+        }
+        e[l] = ob[i];
+        l += 1;
+        i += 1;
+    }
+    if ob.len() > 0 && ob[ob.len() - 1] != b'\n' {
+        e[l] = b'\r';
+        e[l + 1] = b'\n';
+        l += 2;
+    }
+    let pb = PROMPTS[prompt_now].as_bytes();
+    let mut i = 0;
+    while i < 4 {
+        if i < pb.len() {
+            e[l] = pb[i];
+            l += 1;
+        }
+        i += 1;
+    }
+    (e, l)
+}
+
+/// Enter with a handler that (mode 0) writes nothing, (1) writes one of the constant
+/// texts, (2) changes the prompt.  Part 1 (real code): the sink receives exactly
+/// `enter_transcript`, the line is empty afterwards.  Part 2 (`term_enter_lemma`):
+/// on the terminal that transcript leaves the submitted line on its own row, the
+/// output below it and a fresh row showing the (new) prompt with the cursor behind it.
+/// (With the emulator as the sink of the real call the query ran out of 24 GB.)
+/// `scenario`: 0 handler silent, 1..=4 handler writes OUTS[scenario], 5 handler changes
+/// the prompt (a constant per instance: with a symbolic scenario the query ran out of 24 GB)
+fn show_enter_body(valid: usize, scenario: usize) {
     let pre = any_pre_valid(valid);
     kani::assume(printable(&pre));
-    let parsed = parse_line::<N, N1>(&pre.ebuf, pre.valid);
-    kani::assume(!parsed.open && !parsed.help_open);
-    let mode: u8 = kani::any();
-    kani::assume(mode < 3);
+    let mode: u8 = if scenario == 0 {
+        0
+    } else if scenario <= 4 {
+        1
+    } else {
+        2
+    };
+    let which: usize = if scenario <= 4 { scenario } else { 0 };
     let new_prompt: usize = kani::any();
     kani::assume(new_prompt < 3);
-    // handler output: <= 2 bytes over {x, LF}
-    let out: [u8; 2] = kani::any();
-    let ol: usize = kani::any();
-    kani::assume(ol <= 2 && (out[0] == b'x' || out[0] == b'\n') && (out[1] == b'x' || out[1] == b'\n'));
-    let mut cli = build(&pre, term_showing(&pre));
+    // the handler is entered iff the line has a token, i.e. a byte other than a blank
+    // (no help-shaped line fits into 3 bytes); the token oracle itself is C01's
+    let mut dispatch = false;
+    let mut i = 0;
+    while i < N {
+        if i < pre.valid && pre.ebuf[i] != b' ' {
+            dispatch = true;
+        }
+        i += 1;
+    }
+    let out = if dispatch && mode == 1 { OUTS[which] } else { "" };
+    let prompt_now = if dispatch && mode == 2 { new_prompt } else { pre.prompt };
+    let (e, el) = enter_transcript(out, prompt_now);
+    let mut cli = build(&pre, crate::sinks::ExpectSink::<TR>::new(e, el));
     let mut calls = 0usize;
     let r = {
-        let mut p = RawCommand::processor(|h: &mut CliHandle<'_, Term, Infallible>, _c: RawCommand<'_>| {
+        let mut p = RawCommand::processor(|h: &mut CliHandle<'_, crate::sinks::ExpectSink<TR>, Infallible>, _c: RawCommand<'_>| {
             calls += 1;
             if mode == 1 {
-                h.writer().write_str(unsafe { core::str::from_utf8_unchecked(&out[..ol]) })?;
+                h.writer().write_str(OUTS[which])?;
             }
             if mode == 2 {
                 h.set_prompt(PROMPTS[new_prompt]);
@@ -187,91 +241,228 @@ fn show_enter_body(valid: usize) {
         cli.__verif_on_control::<RawCommand<'_>, _>(ControlInput::Enter, &mut p)
     };
     assert!(r.is_ok());
+    assert!(calls == if dispatch { 1 } else { 0 });
     let p = post(&cli);
+    assert!(p.valid == 0 && p.cursor == 0);
+    assert!(cli.__verif_prompt().as_ptr() == PROMPTS[prompt_now].as_ptr(), "C06: prompt change applied");
     let t = cli.__verif_writer();
-    let prompt_now = if calls == 1 && mode == 2 { new_prompt } else { pre.prompt };
-    assert!(shows(t, prompt_now, &p.ebuf, p.valid, p.cursor), "C06/C13: fresh row shows the prompt, cursor behind it");
-    assert!(p.valid == 0);
-    assert!(cli.__verif_prompt().as_ptr() == PROMPTS[prompt_now].as_ptr());
-    // rows: one for the submitted line, plus the rows of the output
-    let wrote = calls == 1 && mode == 1 && ol > 0;
-    if !wrote && !(cfg!(feature = "help") && parsed.help_shaped) {
-        assert!(t.rows == 1, "C13: exactly one line break when nothing was written");
-        // the submitted line is still on the previous row
-        let (cells, _) = row_of(pre.prompt, &pre.ebuf, pre.valid);
-        let mut i = 0;
-        while i < TW {
-            assert!(t.prev[i] == cells[i]);
-            i += 1;
-        }
-    }
-    if wrote {
-        // rows = 1 (submitted line) + number of LF in the text + 1 if the text does not end with LF
-        let mut lfs = 0usize;
-        let mut i = 0;
-        while i < 2 {
-            if i < ol && out[i] == b'\n' {
-                lfs += 1;
-            }
-            i += 1;
-        }
-        let ends_lf = out[ol - 1] == b'\n';
-        assert!(t.rows == 1 + lfs + if ends_lf { 0 } else { 1 }, "C13: one line break added iff the output does not end with one");
-    }
-    kani::cover!(valid < 1 || (wrote && ol == 2 && out[0] == b'x' && out[1] == b'\n'), "output ending with LF");
-    kani::cover!(valid < 1 || (wrote && ol == 1 && out[0] == b'x'), "output without LF");
-    kani::cover!(valid < 1 || (calls == 1 && mode == 2 && new_prompt != pre.prompt), "prompt changed by the handler");
-    kani::cover!(valid < 1 || calls == 0, "blank line");
-    kani::cover!(valid > 0 || calls == 0, "empty line");
+    assert!(t.ok(), "C06/C13: line break, output, line break iff owed, prompt - in this order and nothing else");
+    assert!(t.pending == 0, "C15: flushed");
+    kani::cover!(valid < 1 || dispatch, "dispatched");
+    kani::cover!(valid < 1 || mode != 2 || (dispatch && new_prompt != pre.prompt), "prompt changed by the handler");
+    kani::cover!(valid < 1 || !dispatch, "blank line");
+    kani::cover!(valid > 0 || !dispatch, "empty line");
 }
 
-macro_rules! show_len {
-    ($e:ident, $w:ident, $v:expr) => {
-        #[kani::proof]
-        #[kani::unwind(9)]
-        fn $e() {
-            show_enter_body($v);
-        }
-        #[kani::proof]
-        #[kani::unwind(9)]
-        fn $w() {
-            show_cli_write_body($v);
-        }
-    };
-}
-show_len!(show_enter_v0, show_cli_write_v0, 0);
-show_len!(show_enter_v1, show_cli_write_v1, 1);
-show_len!(show_enter_v2, show_cli_write_v2, 2);
-show_len!(show_enter_v3, show_cli_write_v3, 3);
-
-/// Cli::write(|w| w.write_str(t)) while a line is being edited: the line and its
-/// cursor are intact and redisplayed below the output.
-fn show_cli_write_body(valid: usize) {
-    let pre = any_pre_valid(valid);
+/// Part 2 for Enter: from a terminal that shows prompt + line (cursor anywhere in the
+/// line), `enter_transcript` leaves that row untouched as the previous row when nothing
+/// is written, produces exactly the expected number of rows, and shows the prompt on a
+/// fresh row with the cursor behind it.
+#[kani::proof]
+#[kani::unwind(41)]
+fn term_enter_lemma() {
+    let pre = any_pre();
     kani::assume(printable(&pre));
-    let out: [u8; 2] = kani::any();
-    let ol: usize = kani::any();
-    kani::assume(ol <= 2 && (out[0] == b'x' || out[0] == b'\n') && (out[1] == b'x' || out[1] == b'\n'));
-    let mut cli = build(&pre, term_showing(&pre));
-    let r = cli.write(|w| w.write_str(unsafe { core::str::from_utf8_unchecked(&out[..ol]) }));
-    assert!(r.is_ok());
-    let p = post(&cli);
-    assert!(line_eq(&p, &line_of(&pre)), "C13: writing leaves the line and the cursor intact");
-    let t = cli.__verif_writer();
-    assert!(shows(t, pre.prompt, &p.ebuf, p.valid, p.cursor), "C06/C13: prompt + line redisplayed below the output, cursor included");
-    assert!(t.pending == 0);
+    let which: usize = kani::any();
+    kani::assume(which < 5);
+    let prompt_now: usize = kani::any();
+    kani::assume(prompt_now < 3);
+    let out = OUTS[which];
+    let (e, el) = enter_transcript(out, prompt_now);
+    let mut t = term_showing(&pre);
+    use embedded_io::Write;
+    t.write(&e[..el]).unwrap();
+    let empty = [0u8; N];
+    assert!(shows(&t, prompt_now, &empty, 0, 0), "C06: fresh row shows the prompt, cursor behind it");
+    let ob = out.as_bytes();
     let mut lfs = 0usize;
     let mut i = 0;
-    while i < 2 {
-        if i < ol && out[i] == b'\n' {
+    while i < 3 {
+        if i < ob.len() && ob[i] == b'\n' {
             lfs += 1;
         }
         i += 1;
     }
-    let want_rows = if ol == 0 { 0 } else { lfs + if out[ol - 1] == b'\n' { 0 } else { 1 } };
+    let want_rows = 1 + if ob.len() == 0 { 0 } else { lfs + if ob[ob.len() - 1] == b'\n' { 0 } else { 1 } };
     assert!(t.rows == want_rows, "C13: one line break added iff the output is non-empty and does not end with one");
-    kani::cover!(valid < 1 || (pre.cursor < pre.count && ol > 0), "cursor inside the line while writing");
-    kani::cover!(ol == 0, "empty write");
+    if ob.len() == 0 {
+        let (cells, _) = row_of(pre.prompt, &pre.ebuf, pre.valid);
+        let mut i = 0;
+        while i < TW {
+            assert!(t.prev[i] == cells[i], "C13: the submitted line stays on its own row");
+            i += 1;
+        }
+    }
+    kani::cover!(which == 4 && prompt_now == 2 && pre.cursor < pre.count);
+    kani::cover!(which == 0 && pre.valid == N);
+}
+
+macro_rules! show_enter_case {
+    ($name:ident, $v:expr, $s:expr) => {
+        #[kani::proof]
+        #[kani::unwind(9)]
+        fn $name() {
+            show_enter_body($v, $s);
+        }
+    };
+}
+show_enter_case!(show_enter_v0_silent, 0, 0);
+show_enter_case!(show_enter_v1_silent, 1, 0);
+show_enter_case!(show_enter_v1_x, 1, 1);
+show_enter_case!(show_enter_v1_prompt, 1, 5);
+show_enter_case!(show_enter_v2_silent, 2, 0);
+show_enter_case!(show_enter_v2_x, 2, 1);
+show_enter_case!(show_enter_v2_xlf, 2, 2);
+show_enter_case!(show_enter_v2_lf, 2, 3);
+show_enter_case!(show_enter_v2_xlfx, 2, 4);
+show_enter_case!(show_enter_v2_prompt, 2, 5);
+show_enter_case!(show_enter_v3_silent, 3, 0);
+show_enter_case!(show_enter_v3_x, 3, 1);
+show_enter_case!(show_enter_v3_xlf, 3, 2);
+show_enter_case!(show_enter_v3_prompt, 3, 5);
+
+macro_rules! show_write_case {
+    ($w0:ident, $w2:ident, $v:expr) => {
+        #[kani::proof]
+        #[kani::unwind(9)]
+        fn $w0() {
+            show_cli_write_body($v, 0);
+        }
+        #[kani::proof]
+        #[kani::unwind(9)]
+        fn $w2() {
+            show_cli_write_body($v, 2);
+        }
+    };
+}
+show_write_case!(show_cli_write_v0_p0, show_cli_write_v0_p2, 0);
+show_write_case!(show_cli_write_v1_p0, show_cli_write_v1_p2, 1);
+show_write_case!(show_cli_write_v2_p0, show_cli_write_v2_p2, 2);
+show_write_case!(show_cli_write_v3_p0, show_cli_write_v3_p2, 3);
+
+const OUTS: [&str; 5] = ["", "x", "x\n", "\n", "x\nx"];
+const TR: usize = 40;
+
+/// The byte transcript `Cli::write` must produce: CR, erase line, the output with LF ->
+/// CR LF, one CR LF iff the output is non-empty and does not end with LF, the prompt,
+/// the line, and one cursor-backward per scalar to the right of the editor's cursor.
+fn write_transcript(pre: &Pre, out: &str) -> ([u8; TR], usize) {
+    let mut e = [0u8; TR];
+    let mut l = 0usize;
+    let head = b"\r\x1b[2K";
+    let mut i = 0;
+    while i < head.len() {
+        e[l] = head[i];
+        l += 1;
+        i += 1;
+    }
+    let ob = out.as_bytes();
+    let mut i = 0;
+    while i < ob.len() {
+        if ob[i] == b'\n' {
+            e[l] = b'\r';
+            l += 1;
+        }
+        e[l] = ob[i];
+        l += 1;
+        i += 1;
+    }
+    if ob.len() > 0 && ob[ob.len() - 1] != b'\n' {
+        e[l] = b'\r';
+        e[l + 1] = b'\n';
+        l += 2;
+    }
+    let pb = PROMPTS[pre.prompt].as_bytes();
+    let mut i = 0;
+    while i < 4 {
+        if i < pb.len() {
+            e[l] = pb[i];
+            l += 1;
+        }
+        i += 1;
+    }
+    let mut i = 0;
+    while i < N {
+        if i < pre.valid {
+            e[l] = pre.ebuf[i];
+            l += 1;
+        }
+        i += 1;
+    }
+    let mut k = 0;
+    while k < N {
+        if pre.cursor + k < pre.count {
+            e[l] = 0x1b;
+            e[l + 1] = b'[';
+            e[l + 2] = b'D';
+            l += 3;
+        }
+        k += 1;
+    }
+    (e, l)
+}
+
+/// Cli::write while a line is being edited, part 1 (real code): the line and its
+/// cursor are intact and the sink receives exactly `write_transcript`, flushed.
+/// Part 2 (`term_redraw_lemma`) shows that this transcript, on the terminal, leaves
+/// prompt + line displayed below the output with the cursor at the editor's cursor.
+/// (With the terminal emulator as the sink of the real call the query ran out of
+/// 24 GB even for a constant line length and prompt.)
+fn show_cli_write_body(valid: usize, prompt: usize) {
+    let pre = any_pre_fixed(valid, prompt);
+    kani::assume(printable(&pre));
+    let which: usize = kani::any();
+    kani::assume(which < 5);
+    let out = OUTS[which];
+    let (e, el) = write_transcript(&pre, out);
+    let mut cli = build(&pre, crate::sinks::ExpectSink::<TR>::new(e, el));
+    let r = cli.write(|w| w.write_str(out));
+    assert!(r.is_ok());
+    let p = post(&cli);
+    assert!(line_eq(&p, &line_of(&pre)), "C13: writing leaves the line and the cursor intact");
+    let t = cli.__verif_writer();
+    assert!(t.ok(), "C06/C13: output, line break, prompt, line and cursor restoration, in this order");
+    assert!(t.pending == 0, "C15: flushed");
+    kani::cover!(valid < 1 || (pre.cursor < pre.count && which == 1), "cursor inside the line while writing");
+    kani::cover!(which == 0, "empty write");
+    kani::cover!(which == 4, "text after a line feed");
+}
+
+/// Part 2: feeding `write_transcript` to the terminal from ANY terminal state shows
+/// prompt + line on a fresh row below the output, cursor at the editor's cursor, and
+/// exactly the expected number of line feeds.
+#[kani::proof]
+#[kani::unwind(41)]
+fn term_redraw_lemma() {
+    let pre = any_pre();
+    kani::assume(printable(&pre));
+    let which: usize = kani::any();
+    kani::assume(which < 5);
+    let out = OUTS[which];
+    let (e, el) = write_transcript(&pre, out);
+    let mut t = Term::blank();
+    // arbitrary earlier content of the row and cursor column
+    let cells: [u32; TW] = kani::any();
+    let col: usize = kani::any();
+    kani::assume(col < TW);
+    t.cells = cells;
+    t.col = col;
+    use embedded_io::Write;
+    t.write(&e[..el]).unwrap();
+    assert!(shows(&t, pre.prompt, &pre.ebuf, pre.valid, pre.cursor), "C06: the transcript displays prompt + line, cursor included");
+    let ob = out.as_bytes();
+    let mut lfs = 0usize;
+    let mut i = 0;
+    while i < 3 {
+        if i < ob.len() && ob[i] == b'\n' {
+            lfs += 1;
+        }
+        i += 1;
+    }
+    let want_rows = if ob.len() == 0 { 0 } else { lfs + if ob[ob.len() - 1] == b'\n' { 0 } else { 1 } };
+    assert!(t.rows == want_rows, "C13: one line break added iff the output is non-empty and does not end with one");
+    kani::cover!(pre.cursor < pre.count && pre.valid > pre.count, "cursor left of a multi-byte scalar");
+    kani::cover!(which == 2 && pre.prompt == 2);
 }
 
 /// Cli::set_prompt while a line is being edited.
